@@ -16,7 +16,8 @@ Section Pos.
   Local Notation Canonical := (Canonical m t).
   Local Notation PosOK := (PosOK m t).
 
-  Definition sp_ok (s : span) : Prop := Canonical (sstart s) /\ Canonical (send s).
+  (** both ends canonical (hence inside the text, on unit boundaries), and in order *)
+  Definition sp_ok (s : span) : Prop := (Canonical (sstart s) /\ Canonical (send s)) /\ byte (sstart s) <= byte (send s).
 
   Fixpoint val_ok (v : val) : Prop :=
     match v with
@@ -70,7 +71,7 @@ Section Pos.
   Proof. intros [H _]. exact H. Qed.
 
   Lemma enclosing_ok a b : Canonical a -> Canonical b -> sp_ok (enclosing a b).
-  Proof. intros Ha Hb. unfold enclosing. destruct (byte b <? byte a); split; assumption. Qed.
+  Proof. intros Ha Hb. unfold enclosing, sp_ok. destruct (Nat.ltb_spec (byte b) (byte a)); cbn [sstart send]; (split; [split; assumption|lia]). Qed.
 
   Lemma parse_span_ok lx : PosOK lx -> sp_ok (c_parse_span lx).
   Proof. intros H. apply enclosing_ok; apply H. Qed.
@@ -87,7 +88,7 @@ Section Pos.
     intros H. unfold peeked_span. destruct (c_peek_token_span lx) as [sp|] eqn:E; [exact (peek_token_span_ok lx sp H E)|exact (token_span_ok lx H)].
   Qed.
   Lemma span_at_ok lx : PosOK lx -> sp_ok (span_at (c_cursor_pos lx)).
-  Proof. intros H. split; apply H. Qed.
+  Proof. intros H. unfold span_at, sp_ok. cbn [sstart send]. split; [split; apply H|lia]. Qed.
 
   Lemma set_rec_pos lx r : PosOK lx -> PosOK (set_rec lx r).
   Proof. intros [A B C D E F]. constructor; assumption. Qed.
@@ -597,8 +598,8 @@ Section Pos.
         apply cn_on_ok; [apply IH; assumption|]. intros v l s Hpl Hv Hsl. cbn zeta.
         apply cn_ok; [assumption| |assumption]. split; [|exact Hv].
         assert (Hst : Canonical match c_peek_token_span lx1 with Some sp => sstart sp | None => send (c_token_span lx1) end).
-        { destruct (c_peek_token_span lx1) as [sp|] eqn:E; [exact (proj1 (peek_token_span_ok lx1 sp H1 E))|exact (proj2 (token_span_ok lx1 H1))]. }
-        pose proof (proj2 (parse_span_ok l Hpl)) as He.
+        { destruct (c_peek_token_span lx1) as [sp|] eqn:E; [exact (proj1 (proj1 (peek_token_span_ok lx1 sp H1 E)))|exact (proj2 (proj1 (token_span_ok lx1 H1)))]. }
+        pose proof (proj2 (proj1 (parse_span_ok l Hpl))) as He.
         apply enclosing_ok; [|exact He]. destruct (_ <? _); assumption.
       - (* sub *) apply cn_lift; [exact Hs|]. intros lx' E. apply IH; [exact Hg|exact (c_start_sublex_pos m Htab t Ht lx lx' Hl E)|exact Hs].
       - (* either *) pose proof (IH g1 lx c st Hg1 Hl Hs) as H. destruct (run f g1 lx c st) as [[v l|e| |] s1]; try exact H.
